@@ -262,6 +262,301 @@ Section Quiet.
       | exact Hs
       | exact I ].
   Qed.
+
+  (* ---------------------------------------------------------------- *)
+  (* the same for EVERY instruction, given that the invariant survives  *)
+  (* the four transitions that change upvalue objects and re-entry      *)
+  (* ---------------------------------------------------------------- *)
+  Definition rres_inv (r : rres) : Prop :=
+    match r with ROk s' | RErr _ _ s' => Inv s' | RStop _ _ => True end.
+  Definition nres_inv (r : nres) : Prop :=
+    match r with NOk _ s' | NErr _ s' => Inv s' | NStop _ _ => True end.
+
+  Hypothesis reenter_inv : forall ip s, Inv s -> rres_inv (reenter ip s).
+  Hypothesis Hwrite : write_closed_ok.
+  Hypothesis Inv_i_45 : forall opc ip0 ip s, Inv s -> sres_inv (i_45 P opc ip0 ip s).
+  Hypothesis Inv_i_46 : forall opc ip0 ip s, Inv s -> sres_inv (i_46 P opc ip0 ip s).
+  Hypothesis Inv_i_22 : forall opc ip0 ip s, Inv s -> sres_inv (i_22 opc ip0 ip s).
+
+  Ltac inv_peel ::=
+    cbn [sres_inv rres_inv nres_inv];
+    repeat first
+      [ exact I
+      | apply (keep_Inv _ _ (set_globals_keep _ _))
+      | apply (keep_Inv _ _ (set_log_keep _ _))
+      | apply (keep_Inv _ _ (log_push_keep _ _))
+      | apply (keep_Inv _ _ (set_rem_keep _ _))
+      | apply (keep_Inv _ _ (tick_keep _))
+      | apply (keep_Inv _ _ (spop_n_keep _ _))
+      | apply (keep_Inv _ _ (sraw_set_keep _ _ _)) ].
+
+  Lemma run_function_ok (cn : N -> state -> nres) :
+    (forall h s, Inv s -> nres_inv (cn h s)) ->
+    forall fv s, Inv s -> nres_inv (run_function P reenter cn fv s).
+  Proof.
+    intros Hcn fv s Hs. unfold run_function.
+    destruct fv as [|z|r|a]; try exact Hs.
+    destruct (hget (st_heap s) a) as [o|]; [|exact I].
+    assert (Hgo : forall arity label clo,
+      nres_inv
+        (if (code_len P =? 0)%N then NStop APanic s
+         else match assoc label (p_labels P) with
+              | None => NErr (EProcedureNotFound label) s
+              | Some src =>
+                  let len := N.of_nat (scount s) in
+                  if (len <? arity)%N then NErr EMissingArgument s
+                  else
+                    let f := mkFrame src (last_pos P) (len - arity) clo in
+                    match push_frame s f with
+                    | None => NErr ECallStackOverflow s
+                    | Some s1 =>
+                        match push_frame s1 f with
+                        | None => NErr ECallStackOverflow s
+                        | Some s2 =>
+                            let depth := length (st_calls s) in
+                            let unwind (x : state) :=
+                              set_calls x (skipn (length (st_calls x) - depth) (st_calls x)) in
+                            match reenter src s2 with
+                            | ROk s3 => let '(s5, v) := spop (unwind s3) in NOk v s5
+                            | RErr e _ s3 => NErr e (unwind s3)
+                            | RStop ab s3 => NStop ab s3
+                            end
+                        end
+                    end
+              end)).
+    { intros arity label clo.
+      destruct (code_len P =? 0)%N; [exact I|].
+      destruct (assoc label (p_labels P)) as [src|]; [|exact Hs].
+      cbv zeta. destruct (_ <? _)%N; [exact Hs|].
+      pose proof (off_lt_cap' s arity Hs) as Hoff.
+      destruct (push_frame s _) as [s1|] eqn:E1; [|exact Hs].
+      assert (H1 : Inv s1) by (eapply push_frame_Inv; eauto).
+      assert (Hc1 : cap s1 = cap s).
+      { unfold push_frame in E1. destruct (_ <=? _); [discriminate|]. injection E1 as <-. reflexivity. }
+      destruct (push_frame s1 _) as [s2|] eqn:E2; [|exact Hs].
+      assert (H2 : Inv s2) by (eapply push_frame_Inv; eauto; rewrite Hc1; exact Hoff).
+      pose proof (reenter_inv src s2 H2) as Hr.
+      destruct (reenter src s2) as [s3|e ip3 s3|ab s3]; cbn [rres_inv] in Hr; [| |exact I].
+      - destruct (spop _) as [s5 v] eqn:E5. cbn [nres_inv]. apply spop_keep in E5.
+        eapply keep_Inv; [exact E5|]. apply Inv_set_calls; [exact Hr|].
+        apply frames_lt_skipn. apply (inv_vm _ Hr).
+      - cbn [nres_inv]. apply Inv_set_calls; [exact Hr|]. apply frames_lt_skipn. apply (inv_vm _ Hr). }
+    destruct o; try apply Hgo; try exact Hs.
+    pose proof (Hcn h s Hs) as Hc. destruct (cn h s) as [v s1|e s1|ab s1]; cbn [nres_inv] in Hc |- *.
+    - destruct (spop s1) as [s2 v2] eqn:E. inv_close.
+    - exact Hc.
+    - exact I.
+  Qed.
+
+  Section StdInv.
+    Variable self : N -> state -> nres.
+    Hypothesis Hrf : forall fv s, Inv s -> nres_inv (run_function P reenter self fv s).
+
+    Lemma minmax_go_ok less key_fn : forall l j i best s, Inv s ->
+      match minmax_go F P reenter self less key_fn l j i best s with
+      | MMOk _ s' => Inv s'
+      | MMFail r => nres_inv r
+      end.
+    Proof.
+      induction l as [|[k v] rest IH]; intros j i best s Hc; cbn [minmax_go]; [exact Hc|].
+      destruct (spush s v) as [s1|] eqn:E1; [|exact Hc].
+      assert (H1 : Inv s1) by inv_close.
+      destruct (spush s1 k) as [s2|] eqn:E2; [|exact H1].
+      assert (H2 : Inv s2) by inv_close.
+      pose proof (Hrf key_fn s2 H2) as H.
+      destruct (run_function P reenter self key_fn s2) as [key s3|e s3|ab s3]; cbn [nres_inv] in H; try exact H.
+      destruct (vcmp F (st_heap s3) key best) as [[]| |]; cbv beta iota zeta; cbn [nres_inv]; try exact I;
+        destruct less; cbn [negb]; cbv beta iota; apply IH; exact H.
+    Qed.
+
+    Lemma make_row_ok s k v : Inv s -> nres_inv (make_row F s k v).
+    Proof.
+      intros Hc. unfold make_row.
+      destruct (salloc s _) as [s3 row] eqn:E3. destruct (salloc s3 _) as [s4 ka] eqn:E4.
+      pose proof (salloc_hget _ _ _ _ E3) as Hrow.
+      pose proof (salloc_hget_old _ _ _ _ _ _ E4 Hrow) as Hrow4.
+      destruct (tinsert _ _ _ k); [|exact I].
+      destruct (salloc s4 _) as [s5 va] eqn:E5.
+      pose proof (salloc_hget_old _ _ _ _ _ _ E5 Hrow4) as Hrow5.
+      destruct (tinsert _ _ _ v); [|exact I]. cbn [nres_inv].
+      eapply set_table_ok; [exact Hrow5|]. inv_close.
+    Qed.
+
+    Lemma snapshot_ok s t s' ct : snapshot F s t = Some (s', ct) -> Inv s -> Inv s'.
+    Proof.
+      unfold snapshot. destruct (titer _ t) as [l|]; [|discriminate].
+      destruct (salloc s _) as [s1 c] eqn:E1. destruct (insert_pairs _ _ l) as [ct'|]; [|discriminate].
+      intros H Hs. injection H as <- <-. pose proof (salloc_hget _ _ _ _ E1) as Hc.
+      eapply set_table_ok; [exact Hc|]. inv_close.
+    Qed.
+
+    Lemma native_minmax_ok less it kf s0 : Inv s0 -> nres_inv (native_minmax F P reenter self less it kf s0).
+    Proof.
+      intros Hs0. unfold native_minmax. destruct it; try exact Hs0.
+      destruct (hget (st_heap s0) a) as [[t| | | | |]|]; try exact Hs0; try exact I.
+      destruct (snapshot F s0 t) as [[s entries]|] eqn:Esn; [|exact I].
+      assert (Hs : Inv s) by (eapply snapshot_ok; eauto).
+      clear Esn.
+      destruct (titer _ entries) as [[|[k0 v0] rest]|]; try exact Hs; try exact I.
+      destruct (spush s v0) as [s1|] eqn:E1; [|exact Hs].
+      assert (H1 : Inv s1) by inv_close.
+      destruct (spush s1 k0) as [s2|] eqn:E2; [|exact H1].
+      assert (H2 : Inv s2) by inv_close.
+      pose proof (Hrf kf s2 H2) as H.
+      destruct (run_function P reenter self kf s2) as [key0 s3|e s3|ab s3]; cbn [nres_inv] in H; try exact H.
+      pose proof (minmax_go_ok less kf rest 1 0 key0 s3 H) as Hm.
+      destruct (minmax_go F P reenter self less kf rest 1 0 key0 s3) as [i s4|r]; [|exact Hm].
+      destruct (tget _ entries _); [|exact I].
+      apply make_row_ok. exact Hm.
+    Qed.
+
+    Lemma sort_keys_ok kf : forall l s, Inv s ->
+      match sort_keys P reenter self kf l s with
+      | SKOk _ s' => Inv s'
+      | SKFail r => nres_inv r
+      end.
+    Proof.
+      induction l as [|[k v] rest IH]; intros s Hc; cbn [sort_keys]; [exact Hc|].
+      destruct (spush s v) as [s1|] eqn:E1; [|exact Hc].
+      assert (H1 : Inv s1) by inv_close.
+      destruct (spush s1 k) as [s2|] eqn:E2; [|exact H1].
+      assert (H2 : Inv s2) by inv_close.
+      pose proof (Hrf kf s2 H2) as H.
+      destruct (run_function P reenter self kf s2) as [key s3|e s3|ab s3]; cbn [nres_inv] in H; try exact H.
+      specialize (IH s3 H).
+      destruct (sort_keys P reenter self kf rest s3); exact IH.
+    Qed.
+
+    Lemma native_sorted_ok it kf s0 : Inv s0 -> nres_inv (native_sorted F P reenter self it kf s0).
+    Proof.
+      intros Hs0. unfold native_sorted. destruct it; try exact Hs0.
+      destruct (hget (st_heap s0) a) as [[t| | | | |]|]; try exact Hs0; try exact I.
+      destruct (snapshot F s0 t) as [[s entries]|] eqn:Esn; [|exact I].
+      assert (Hs : Inv s) by (eapply snapshot_ok; eauto).
+      clear Esn.
+      destruct (titer _ entries) as [l|]; [|exact I].
+      pose proof (sort_keys_ok kf l s Hs) as Hk.
+      destruct (sort_keys P reenter self kf l s) as [keyed s1|r]; [|exact Hk].
+      destruct (stable_sort _ _ _ _); [|exact I].
+      destruct (salloc s1 _) as [s2 out] eqn:E2.
+      pose proof (salloc_hget _ _ _ _ E2) as Hout.
+      destruct (insert_all _ _ _); [|exact I]. cbn [nres_inv].
+      eapply set_table_ok; [exact Hout|]. inv_close.
+    Qed.
+  End StdInv.
+
+  Lemma native_body_ok (self : N -> state -> nres) :
+    (forall h s, Inv s -> nres_inv (self h s)) ->
+    forall n s, Inv s -> nres_inv (native_body F P reenter self n s).
+  Proof.
+    intros Hself n s Hs.
+    pose proof (run_function_ok self Hself) as Hrf.
+    destruct n; cbn [native_body]; cbv zeta.
+    - (* log1 *) inv_close.
+    - (* sub2 *) destruct (to_i64 _ _ _); [|exact I]. destruct (to_i64 _ _ _); inv_close.
+    - exact Hs.
+    - (* str1 *) destruct (as_str _ _); inv_close.
+    - (* mix3 *) destruct (to_i64 _ _ _); [|exact I]. destruct (to_f64 _ _ _); inv_close.
+    - (* call1 *)
+      destruct (spush s _) as [s1|] eqn:E1; [|exact Hs].
+      assert (H1 : Inv s1) by inv_close.
+      apply Hrf. exact H1.
+    - (* try1 *)
+      destruct (spush s _) as [s1|] eqn:E1; [|exact Hs].
+      assert (H1 : Inv s1) by inv_close.
+      pose proof (Hrf (speek s 1) s1 H1) as H. destruct (run_function _ _ _ _ s1); inv_close.
+    - (* call0 *) apply Hrf. exact Hs.
+    - (* t4 *) destruct (as_str _ _); try inv_close.
+      destruct (as_bool _ _ _); [|exact I]. destruct (to_f64 _ _ _); [|exact I]. destruct (to_i64 _ _ _); inv_close.
+    - (* nil1 *) destruct (speek s 0); try inv_close; destruct (to_i64 _ _ _); inv_close.
+    - (* tab1 *) destruct (get_table _ _); inv_close.
+    - (* cat2 *) destruct (as_str _ _); try inv_close. destruct (as_str _ _); inv_close.
+    - (* rb1 *)
+      destruct (spush s _) as [s1|] eqn:E1; [|exact Hs].
+      assert (H1 : Inv s1) by inv_close.
+      pose proof (Hrf (speek s 1) s1 H1) as H. destruct (run_function _ _ _ _ s1); inv_close.
+    - apply native_minmax_ok; [exact Hrf|exact Hs].
+    - apply native_minmax_ok; [exact Hrf|exact Hs].
+    - apply native_sorted_ok; [exact Hrf|exact Hs].
+    - (* to_array *)
+      destruct (speek s 0); try exact Hs.
+      destruct (hget _ _) as [[]|]; try exact Hs; try exact I.
+      destruct (salloc s _) as [s2 out] eqn:E2.
+      pose proof (salloc_hget _ _ _ _ E2) as Hout.
+      destruct (titer _ _); [|exact I].
+      destruct (to_array_go _ _ _ _); [|exact I]. cbn [nres_inv].
+      apply (set_table_ok s2 out _ t0 Hout). inv_close.
+  Qed.
+
+  Lemma call_native_fuel_ok fuel : forall h s, Inv s -> nres_inv (call_native_fuel F P reenter fuel h s).
+  Proof.
+    induction fuel as [|f IH]; intros h s Hs; cbn [call_native_fuel]; [exact I|].
+    destruct (find_native h all_natives) as [n|]; [|exact Hs].
+    pose proof (native_body_ok _ IH n s Hs) as H.
+    destruct (native_body _ _ _ _ n s) as [v s1|e s1|ab s1]; cbn [nres_inv] in H.
+    - cbv zeta. assert (H' : Inv (spop_n s1 (native_arity n))) by inv_close.
+      destruct (spush _ v) eqn:E; inv_close.
+    - inv_close.
+    - exact I.
+  Qed.
+
+  Lemma native_step_ok h ip s : Inv s -> sres_inv (native_step F P reenter h ip s).
+  Proof.
+    intros Hs. unfold native_step, call_native. pose proof (call_native_fuel_ok 8 h s Hs) as H.
+    destruct (call_native_fuel _ _ _ _ h s); exact H.
+  Qed.
+
+  Lemma i_4_ok : forall opc ip0 ip s, Inv s -> sres_inv (i_4 F P reenter opc ip0 ip s).
+  Proof.
+    intros opc ip0 ip s Hs. unfold i_4. destruct (op_u32 P ip); [|exact I]. apply native_step_ok. exact Hs.
+  Qed.
+
+
+  Lemma i_11_inv : forall opc ip0 ip s, Inv s -> sres_inv (i_11 F P reenter opc ip0 ip s).
+  Proof.
+    intros opc ip0 ip s Hs.
+    destruct (spop s) as [s1 fv] eqn:E1.
+    assert (H1 : Inv s1) by inv_close.
+    destruct fv as [|z|r|a] eqn:Efv;
+      try (apply i_11_ok; [exact Hs|]; unfold not_native_callee; rewrite E1; cbn [fst snd]; intros a0 h0 E0; discriminate E0).
+    destruct (hget (st_heap s1) a) as [o|] eqn:Eo.
+    2:{ apply i_11_ok; [exact Hs|]. unfold not_native_callee. rewrite E1. cbn [fst snd].
+        intros a0 h0 E0 E0'. injection E0 as <-. rewrite Eo in E0'. discriminate E0'. }
+    destruct o as [t|b|h ar|h|h ar ups|u];
+      try (apply i_11_ok; [exact Hs|]; unfold not_native_callee; rewrite E1; cbn [fst snd];
+           intros a0 h0 E0 E0'; injection E0 as <-; rewrite Eo in E0'; discriminate E0').
+    unfold i_11. rewrite E1, Eo. apply native_step_ok. exact H1.
+  Qed.
+
+  Theorem step_inv : forall ip s, Inv s -> sres_inv (step F bld P reenter ip s).
+  Proof.
+    intros ip0 s Hs.
+    destruct (in_dec N.eq_dec (nth (N.to_nat ip0) (p_code P) 255%N) [4; 11; 22; 45; 46]%N) as [Hin|Hnin].
+    - unfold step. cbv zeta. cbn [In] in Hin.
+      destruct Hin as [E|[E|[E|[E|[E|[]]]]]]; rewrite <- E; cbv iota.
+      + apply i_4_ok. exact Hs.
+      + apply i_11_inv. exact Hs.
+      + apply Inv_i_22. exact Hs.
+      + apply Inv_i_45. exact Hs.
+      + apply Inv_i_46. exact Hs.
+    - apply step_quiet; [| |intros _; exact Hwrite|exact Hs].
+      + intros Hin. apply Hnin. cbn in *. tauto.
+      + intros E. exfalso. apply Hnin. rewrite E. cbn. tauto.
+  Qed.
+
+  Lemma loop_inv : forall fuel ip s, Inv s -> rres_inv (loop F bld P reenter fuel ip s).
+  Proof.
+    induction fuel as [|f IH]; intros ip s Hs; cbn [loop].
+    - destruct (code_len P <=? ip)%N; [exact Hs|].
+      cbn [st_rem set_rem]. destruct (N.pred (st_rem s) =? 0)%N; [|exact I].
+      cbn [rres_inv]. inv_close.
+    - destruct (code_len P <=? ip)%N; [exact Hs|].
+      cbn [st_rem set_rem]. destruct (N.pred (st_rem s) =? 0)%N; [cbn [rres_inv]; inv_close|].
+      assert (Ht : Inv (tick (set_rem s (N.pred (st_rem s))))) by inv_close.
+      pose proof (step_inv ip _ Ht) as H.
+      destruct (step F bld P reenter ip _) as [ip' s'|s'|e ip' s'|a s']; cbn [sres_inv rres_inv] in *; try exact H.
+      apply IH. exact H.
+  Qed.
 End Quiet.
 
 (* the instances *)
@@ -376,4 +671,178 @@ Proof.
   destruct (register_shares F bld P re ip0 t index is_local t1 cb ch car cups off l' loc
               Hop Ei Eil Hnz Ep Hcb Eo El Hlt Ht Hlt') as [A _].
   apply A. exact Hin.
+Qed.
+
+(* ------------------------------------------------------------------ *)
+(* the objects of the heap are stable under EVERY instruction          *)
+(* ------------------------------------------------------------------ *)
+(* [stable_from s0 x]: x is good and every object of s0 is still there in x, as a later state of itself *)
+Definition stable_from (s0 x : state) : Prop := vm_ok x /\ heap_mono (st_heap s0) (st_heap x).
+
+Section Stable.
+  Variable F : fops.
+  Variable bld : build.
+  Variable P : program.
+  Variable s0 : state.
+  Notation J := (stable_from s0).
+
+  Lemma stable_keep : forall s s1, keep s s1 -> J s -> J s1.
+  Proof.
+    intros s s1 K (A & B). split; [eapply keep_vm_ok; eauto|]. eapply heap_mono_trans; [exact B|apply K].
+  Qed.
+  Lemma stable_vm : forall s, J s -> vm_ok s.
+  Proof. intros s (A & _). exact A. Qed.
+  Lemma stable_calls : forall s c, J s -> frames_lt (cap s) c -> J (set_calls s c).
+  Proof. intros s c (A & B) Hc. split; [apply vm_ok_set_calls; assumption|exact B]. Qed.
+  Lemma stable_write : write_closed_ok J.
+  Proof.
+    intros s ua u wv Hu Hl (A & B). split; [apply write_closed_vm_ok; assumption|].
+    eapply heap_mono_trans; [exact B|apply write_closed_mono; assumption].
+  Qed.
+  Lemma stable_mono s s' : J s -> heap_mono (st_heap s) (st_heap s') -> vm_ok s' -> J s'.
+  Proof. intros (_ & B) M A. split; [exact A|eapply heap_mono_trans; eauto]. Qed.
+
+  Lemma push_next_stable ip s v : J s -> sres_inv J (push_next ip s v).
+  Proof.
+    intros Hs. unfold push_next. destruct (spush s v) as [s1|] eqn:E; cbn [sres_inv]; [|exact Hs].
+    eapply stable_keep; [eapply spush_keep; exact E|exact Hs].
+  Qed.
+
+  Lemma i_46_stable : forall opc ip0 ip s, J s -> sres_inv J (i_46 P opc ip0 ip s).
+  Proof.
+    intros opc ip0 ip s Hs; unfold i_46; cbv zeta.
+    destruct (op_u32 P ip) as [idx|]; [|exact I].
+    destruct (top_offset s) as [off|]; [|exact I].
+    pose proof (stable_vm _ Hs) as Hv.
+    destruct (close_from_vm_ok (off + N.to_nat idx) s Hv) as (s' & E & H' & _). rewrite E. cbn [sres_inv].
+    destruct Hv as ((l & Hl) & _).
+    eapply stable_mono; [exact Hs|eapply close_from_mono; eauto|exact H'].
+  Qed.
+
+  Lemma i_22_stable : forall opc ip0 ip s, J s -> sres_inv J (i_22 opc ip0 ip s).
+  Proof.
+    intros opc ip0 ip s Hs; unfold i_22; cbv zeta.
+    destruct (st_calls s) as [|fr rest] eqn:Ec; [exact Hs|].
+    pose proof (stable_vm _ Hs) as Hv.
+    assert (Hfr : N.to_nat (fr_off fr) < cap s /\ frames_lt (cap s) rest).
+    { destruct Hv as (_ & _ & Hf). rewrite Ec in Hf. inversion Hf; subst. split; assumption. }
+    destruct Hfr as [Hoff Hrest].
+    assert (Hs1 : J (set_calls s rest)) by (apply stable_calls; assumption).
+    pose proof (stable_vm _ Hs1) as Hv1.
+    destruct (close_from_vm_ok (N.to_nat (fr_off fr)) _ Hv1) as (s2 & E & H2 & Hsame). rewrite E.
+    assert (J2 : J s2).
+    { destruct Hv1 as ((l & Hl) & _).
+      eapply stable_mono; [exact Hs1|eapply close_from_mono; eauto|exact H2]. }
+    destruct (sclear_until s2 _) as [s3 v] eqn:E3. apply sclear_until_keep in E3.
+    - pose proof (stable_keep _ _ E3 J2) as J3.
+      destruct rest as [|prev rest']; [exact J3|]. apply push_next_stable. exact J3.
+    - destruct Hsame as (A1 & _). unfold cap in *. rewrite A1. exact Hoff.
+  Qed.
+
+  Lemma i_45_stable : forall opc ip0 ip s, J s -> sres_inv J (i_45 P opc ip0 ip s).
+  Proof.
+    intros opc ip0 ip s Hs. pose proof (stable_vm _ Hs) as Hv.
+    destruct (read_le (p_code P) ip 1) as [index|] eqn:Ei; [|unfold i_45; rewrite Ei; exact I].
+    destruct (read_le (p_code P) (ip + 1) 1) as [is_local|] eqn:Eil; [|unfold i_45; rewrite Ei, Eil; exact I].
+    destruct (spop s) as [s1 cv] eqn:E1.
+    assert (H1 : J s1) by (eapply stable_keep; [eapply spop_keep; exact E1|exact Hs]).
+    pose proof (stable_vm _ H1) as Hv1.
+    destruct cv as [|z|r|ca]; try (unfold i_45; rewrite Ei, Eil; cbv zeta; rewrite E1; exact H1).
+    destruct (hget (st_heap s1) ca) as [[t|b|h ar|h|ch car cups|u]|] eqn:Eca;
+      try (unfold i_45; rewrite Ei, Eil; cbv zeta; rewrite E1, Eca; first [exact H1|exact I]).
+    destruct (N.eqb_spec is_local 0) as [Ez|Hnz].
+    - unfold i_45. rewrite Ei, Eil. cbv zeta. rewrite E1, Eca. subst is_local. cbn [N.eqb negb].
+      destruct (st_calls s1) as [|fr rest]; [exact I|].
+      destruct (fr_clo fr) as [fa|]; [|exact I].
+      destruct (hget (st_heap s1) fa) as [[t|b|h ar|h|h ar fups|u]|]; try exact I.
+      destruct (nth_error fups _) as [ua|]; [|exact I]. cbn [sres_inv].
+      apply (stable_keep s1); [|exact H1]. apply clo_append_keep. exact Eca.
+    - destruct (top_offset s1) as [off|] eqn:Eo.
+      2:{ unfold i_45. rewrite Ei, Eil. cbv zeta. rewrite E1, Eca.
+          destruct (N.eqb_spec is_local 0); [contradiction|]. cbn [negb]. rewrite Eo. exact I. }
+      destruct (Nat.leb_spec (scount s1) (off + N.to_nat index)) as [Lc|Lc].
+      { unfold i_45. rewrite Ei, Eil. cbv zeta. rewrite E1, Eca.
+        destruct (N.eqb_spec is_local 0); [contradiction|]. cbn [negb]. rewrite Eo.
+        destruct (Nat.leb_spec (scount s1) (off + N.to_nat index)); [exact I|lia]. }
+      pose proof Hv1 as ((l & Hl) & _). destruct Hl as (Hseg & _).
+      destruct (i_45_local_spec P opc ip0 ip s index is_local s1 ca ch car cups off l _
+                  Ei Eil Hnz E1 Eca Eo eq_refl Lc Hv1 Hseg) as [Hex Hnew].
+      destruct (in_dec Nat.eq_dec (off + N.to_nat index) (slots l)) as [Hin|Hnin].
+      + unfold slots in Hin. apply in_map_iff in Hin. destruct Hin as ([a k] & Ek & Hin). cbn in Ek. subst k.
+        rewrite (Hex a Hin). cbn [sres_inv].
+        apply (stable_keep s1); [|exact H1]. apply clo_append_keep. exact Eca.
+      + destruct (Hnew Hnin) as (s' & E & H' & _ & _ & _ & _ & _ & _ & _ & M). rewrite E. cbn [sres_inv].
+        eapply stable_mono; [exact H1|exact M|exact H'].
+  Qed.
+
+  (* one instruction - every opcode, every native, re-entry included *)
+  Theorem step_stable : forall reenter,
+    (forall ip s, J s -> rres_inv J (reenter ip s)) ->
+    forall ip s, J s -> sres_inv J (step F bld P reenter ip s).
+  Proof.
+    intros re Hre. apply step_inv.
+    - exact stable_keep.
+    - exact stable_vm.
+    - exact stable_calls.
+    - exact Hre.
+    - exact stable_write.
+    - exact i_45_stable.
+    - exact i_46_stable.
+    - exact i_22_stable.
+  Qed.
+
+  Lemma run_at_stable max_instr : forall depth ip s,
+    J s -> rres_inv J (run_at F bld P false max_instr depth ip s).
+  Proof.
+    induction depth as [|d IH]; intros ip s Hs; cbn [run_at]; [exact I|].
+    unfold run_loop. apply loop_inv; try assumption.
+    - exact stable_keep.
+    - exact stable_vm.
+    - exact stable_calls.
+    - exact stable_write.
+    - exact i_45_stable.
+    - exact i_46_stable.
+    - exact i_22_stable.
+  Qed.
+End Stable.
+
+(* a whole run: every object of the start state is still there at the end, as a later state of itself *)
+Theorem run_stable : forall F bld budget P s o s',
+  vm_ok s -> run F bld budget P s = (o, s') -> (forall a, o <> OAbort a) ->
+  vm_ok s' /\ heap_mono (st_heap s) (st_heap s').
+Proof.
+  intros F bld budget P s o s' Hs Hr Hna. unfold run, run_gen in Hr.
+  destruct (push_frame s _) as [s1|] eqn:E1.
+  2:{ injection Hr as <- <-. split; [exact Hs|apply heap_mono_refl]. }
+  assert (H1 : stable_from s s1).
+  { split; [eapply push_frame_vm_ok; [exact E1|exact Hs|]; cbn; destruct Hs as (_ & Hc & _); lia|].
+    unfold push_frame in E1. destruct (_ <=? _); [discriminate|]. injection E1 as <-. apply heap_mono_refl. }
+  assert (H2 : stable_from s (set_rem s1 (N.of_nat budget))).
+  { eapply stable_keep; [apply set_rem_keep|exact H1]. }
+  pose proof (run_at_stable F bld P s (N.of_nat budget) max_depth 0 _ H2) as H.
+  unfold finish, outcome_of in Hr.
+  destruct (run_at F bld P false (N.of_nat budget) max_depth 0 _) as [x|e ip x|a x]; cbn [rres_inv] in H.
+  - injection Hr as <- <-. destruct H as [A B]. split; [apply vm_ok_set_calls; [exact A|constructor]|exact B].
+  - injection Hr as <- <-. destruct H as [A B]. split; [apply vm_ok_set_calls; [exact A|constructor]|exact B].
+  - injection Hr as <- <-. exfalso. eapply Hna. reflexivity.
+Qed.
+
+(* what heap_mono says about closures and upvalues *)
+Theorem heap_mono_meaning : forall h h', heap_mono h h' ->
+  (forall a lbl ar ups, hget h a = Some (OClo lbl ar ups) ->
+     exists more, hget h' a = Some (OClo lbl ar (ups ++ more))) /\
+  (forall a u, hget h a = Some (OUp u) -> u_loc u = None ->
+     exists u', hget h' a = Some (OUp u') /\ u_loc u' = None) /\
+  (forall a u u' l, hget h a = Some (OUp u) -> hget h' a = Some (OUp u') -> u_loc u' = Some l -> u_loc u = Some l) /\
+  (forall a lbl ar, hget h a = Some (OFun lbl ar) -> hget h' a = Some (OFun lbl ar)).
+Proof.
+  intros h h' M. repeat split.
+  - intros a lbl ar ups H. destruct (M _ _ H) as (o' & E & L). destruct o'; cbn in L; try contradiction.
+    destruct L as (-> & -> & more & ->). exists more. exact E.
+  - intros a u H Hl. destruct (M _ _ H) as (o' & E & L). destruct o' as [| | | | |u']; cbn in L; try contradiction.
+    exists u'. split; [exact E|]. destruct (u_loc u') as [l|] eqn:El; [|reflexivity].
+    specialize (L l eq_refl). congruence.
+  - intros a u u' l H H' Hl. destruct (M _ _ H) as (o' & E & L). rewrite H' in E. injection E as <-. cbn in L. auto.
+  - intros a lbl ar H. destruct (M _ _ H) as (o' & E & L). destruct o'; cbn in L; try contradiction.
+    destruct L as [-> ->]. exact E.
 Qed.
